@@ -39,7 +39,10 @@ def check(run):
         test_names = {dotted(n) for n in ast.walk(w.test) if isinstance(n, (ast.Attribute, ast.Name))}
         feeds = any(isinstance(n, ast.Assign) and dotted(n.targets[0]) == "self.done" and isinstance(n.value, ast.Call)
                     and is_self_call(n.value, "recur") for n in ast.walk(w))
-        ok = "self.done" in test_names and feeds
+        # the completion test is the loop test, or a `break` guard inside a `while True` loop
+        brk = {dotted(x) for n in ast.walk(w) if isinstance(n, ast.If) and any(isinstance(b, ast.Break) for b in n.body)
+               for x in ast.walk(n.test) if isinstance(x, (ast.Attribute, ast.Name))}
+        ok = ("self.done" in test_names or "self.done" in brk) and feeds
     run.ob("C04.R2", "%s:DoDoer.do:loop-test-fed-by-recur" % M, ok, site,
            "" if ok else "DoDoer.do's loop test is not fed by self.done = self.recur(...): completion is delayed or lost")
     # recur passes the tyme it was sent
